@@ -709,9 +709,11 @@ class EvolutionSuperOperator(SuperOperator, TimeDependent, Saveable):
         if time is not None:
             ti, dt = self.time.locate(time)
 
-            return SuperOperator(data=self.data[ti, :, :, :, :])
+            # copies: a view would share its array with this object, and
+            # both are transformed when a basis context is left
+            return SuperOperator(data=self.data[ti, :, :, :, :].copy())
         else:
-            return SuperOperator(data=self.data)
+            return SuperOperator(data=self.data.copy())
 
           
     def apply(self, time, target, copy=True):
